@@ -1,5 +1,7 @@
 import XmppModel.Model.Mux
 import XmppModel.Lemmas.Mux
+import XmppModel.Model.MuxElem
+import XmppModel.Lemmas.MuxElem
 import XmppModel.Generated.C14
 /-!
 # C14 — the multiplexer always picks the most specific registered handler
@@ -476,5 +478,327 @@ theorem C14_fallback_table_spec :
     ∀ r ∈ fallbackTableModel,
       r.reply = if r.req.typ == "error" || r.req.typ == "result" then none
                 else some ⟨"error", r.req.id, r.req.frm, r.req.to⟩ := by decide
+
+/-! ## Round E: the multiplexer from the element on -/
+
+/-! ### stanzas belong to the patterns of their own kind and type -/
+
+/- Full strength (the property's "considering only patterns of the element's own stanza kind and
+type — and otherwise its defaults"), FALSE for the code as it is (`C14_top_level_shadows_fails`):
+
+    ∀ tbl ns n as body cons k, kindOfLocal n.loc = some k → (ns = "" ∨ n.space = ns) →
+      handleElem tbl ns (.start n as :: body) cons = handleElem (own kind and type of tbl) ns … cons
+-/
+/-- **own kind and type, from the element on** (partial: hypothesis `hno`): a stanza of the
+multiplexer's namespace which no *top-level* pattern matches is dispatched — registered
+handlers, their order, the default reply — exactly as by a multiplexer holding only the patterns
+of the stanza's own kind and of the type of its own attributes: patterns of the other kinds, of
+other types and all top-level patterns can be removed without any effect -/
+theorem C14_stanza_own_kind_partial (tbl : Table) (ns : String) (n : Name) (as : List Attr)
+    (body : List Tok) (cons : List Nat) (k : Kind)
+    (hk : kindOfLocal n.loc = some k) (hns : ns = "" ∨ n.space = ns)
+    (hno : lookup tbl .top "" n = none) :
+    handleElem tbl ns (.start n as :: body) cons =
+      handleElem (tbl.filter fun p => p.kind == k &&
+          p.typ == (stanzaHdr k (as.filter fun a => a.name.space == "")).typ)
+        ns (.start n as :: body) cons := by
+  rw [← stanzaHdr_filter]
+  have hktop : k ≠ .top := by
+    intro e; subst e
+    simp only [kindOfLocal] at hk
+    split at hk <;> (try split at hk) <;> (try split at hk) <;> simp at hk
+  have hno' : lookup (tbl.filter fun p => p.kind == k && p.typ == (stanzaHdr k as).typ) .top "" n = none := by
+    apply lookup_none_of_no_kind
+    intro p hp hpk
+    simp only [List.mem_filter, Bool.and_eq_true, beq_iff_eq] at hp
+    exact hktop (hp.2.1 ▸ hpk)
+  have hst : isStanzaFor ns n = true := by
+    have hl : isStanzaLocal n = true := by
+      simp only [kindOfLocal] at hk
+      simp only [isStanzaLocal, Bool.or_eq_true]
+      by_cases h1 : (n.loc == "iq") = true
+      · exact Or.inl (Or.inl h1)
+      · by_cases h2 : (n.loc == "message") = true
+        · exact Or.inl (Or.inr h2)
+        · by_cases h3 : (n.loc == "presence") = true
+          · exact Or.inr h3
+          · simp [h1, h2, h3] at hk
+    rcases hns with h | h <;> simp [isStanzaFor, hl, h]
+  simp only [handleElem, route_no_top _ _ _ hno, route_no_top _ _ _ hno', hst, if_true]
+  simp only [kindOfLocal] at hk
+  by_cases h1 : (n.loc == "iq") = true
+  · simp only [h1, if_true] at hk ⊢
+    have hk' : k = .iq := by simpa using hk.symm
+    subst hk'
+    simp only [iqRouteA, startAttrs]
+    rw [iqRoute_congr _ _ _ (fun m => lookup_filter tbl .iq (stanzaHdr .iq as).typ m)]
+  · simp only [h1, Bool.false_eq_true, if_false] at hk ⊢
+    by_cases h2 : (n.loc == "message") = true
+    · simp only [h2, if_true] at hk ⊢
+      have hk' : k = .msg := by simpa using hk.symm
+      subst hk'
+      simp only [stanzaRoute, startAttrs, forChildrenF_eq]
+      rw [forChildren_congr _ _ _ _ (fun m => lookup_filter tbl .msg (stanzaHdr .msg as).typ m)]
+    · simp only [h2, Bool.false_eq_true, if_false] at hk ⊢
+      by_cases h3 : (n.loc == "presence") = true
+      · simp only [h3, if_true] at hk
+        have hk' : k = .pres := by simpa using hk.symm
+        subst hk'
+        simp only [stanzaRoute, startAttrs, forChildrenF_eq]
+        rw [forChildren_congr _ _ _ _ (fun m => lookup_filter tbl .pres (stanzaHdr .pres as).typ m)]
+      · simp [h3] at hk
+
+/-- the hypotheses are satisfiable with handlers that run -/
+example : handleElem [⟨.msg, "normal", ⟨"", ""⟩⟩, ⟨.top, "", ⟨"urn:a", "x"⟩⟩, ⟨.pres, "", ⟨"", ""⟩⟩] "jabber:client"
+    [.start ⟨"jabber:client", "message"⟩ [], .start ⟨"urn:a", "x"⟩ [], .stop ⟨"urn:a", "x"⟩, .stop ⟨"jabber:client", "message"⟩] [1]
+    = .ran [⟨.msg, "normal", ⟨"", ""⟩⟩] := by decide
+
+/-- **negation witness** (KNOWN_FINDINGS `top-level-pattern-shadows-stanzas`): without `hno` the
+statement is false — a namespace-only top-level pattern, which `Handle` accepts
+(`C14_shadowing_pattern_accepted`), takes a message of the multiplexer's namespace away from
+the message pattern registered for it -/
+theorem C14_top_level_shadows_fails :
+    ¬ ∀ (tbl : Table) (ns : String) (n : Name) (as : List Attr) (body : List Tok) (cons : List Nat) (k : Kind),
+      kindOfLocal n.loc = some k → (ns = "" ∨ n.space = ns) →
+      handleElem tbl ns (.start n as :: body) cons =
+        handleElem (tbl.filter fun p => p.kind == k &&
+            p.typ == (stanzaHdr k (as.filter fun a => a.name.space == "")).typ)
+          ns (.start n as :: body) cons := by
+  intro h
+  have := h [⟨.top, "", ⟨"jabber:client", ""⟩⟩, ⟨.msg, "normal", ⟨"", ""⟩⟩] "jabber:client"
+    ⟨"jabber:client", "message"⟩ [] [.stop ⟨"jabber:client", "message"⟩] [] .msg (by decide) (Or.inr rfl)
+  revert this
+  decide
+
+theorem C14_shadowing_pattern_accepted :
+    (register [⟨.msg, "normal", ⟨"", ""⟩⟩] ⟨.top, "", ⟨"jabber:client", ""⟩⟩ false).isSome = true := by decide
+
+/-- **the dispatch of an element is a function of the SET of registrations**: whatever the order
+of the registrations, and whether or not elements were dispatched between them (the model's
+state is the table: `C14_history_state`), two multiplexers holding the same patterns treat every
+element alike — handlers, their order, their views, the default reply -/
+theorem C14_elem_set (t1 t2 : Table) (h : ∀ p, p ∈ t1 ↔ p ∈ t2) (ns : String) (toks : List Tok)
+    (cons : List Nat) : handleElem t1 ns toks cons = handleElem t2 ns toks cons := by
+  have hl : ∀ k typ n, lookup t1 k typ n = lookup t2 k typ n :=
+    fun k typ n => C14_lookup_set t1 t2 h k typ n
+  have hr : ∀ n, route t1 ns n = route t2 ns n := fun n => by simp [route, hl]
+  cases toks with
+  | nil => rfl
+  | cons t ts =>
+    cases t with
+    | start n as =>
+      simp only [handleElem, hr, iqRouteA, stanzaRoute, forChildrenF_eq]
+      rw [iqRoute_congr t1 t2 _ (hl .iq _), forChildren_congr t1 t2 .msg _ (hl .msg _),
+        forChildren_congr t1 t2 .pres _ (hl .pres _)]
+    | _ => rfl
+
+/-! ### construction of the multiplexer value -/
+
+/-- **a multiplexer without a stanza namespace routes the stanzas of every namespace** — the zero
+value (`&ServeMux{}`, a `ServeMux` embedded by value) and `New("")` alike: an element named iq /
+message / presence in *any* namespace, not taken by a top-level pattern, reaches the router of
+its kind -/
+theorem C14_zero_value_any_namespace (c : Ctor) (hc : c = .zero ∨ c = .value) (tbl : Table)
+    (ns : String) (n : Name) (k : Kind) (hk : kindOfLocal n.loc = some k)
+    (hno : lookup tbl .top "" n = none) :
+    route tbl (muxNS c ns) n =
+      (match k with | .iq => .iqRouter | .msg => .msgRouter | .pres => .presRouter | .top => .nop) := by
+  have hm : muxNS c ns = "" := by rcases hc with h | h <;> subst h <;> rfl
+  rw [hm, route_no_top _ _ _ hno]
+  simp only [kindOfLocal] at hk
+  by_cases h1 : (n.loc == "iq") = true
+  · have : k = .iq := by simpa [h1] using hk.symm
+    subst this
+    simp [isStanzaFor, isStanzaLocal, h1]
+  · by_cases h2 : (n.loc == "message") = true
+    · have : k = .msg := by simpa [h1, h2] using hk.symm
+      subst this
+      simp [isStanzaFor, isStanzaLocal, h1, h2]
+    · by_cases h3 : (n.loc == "presence") = true
+      · have : k = .pres := by simpa [h1, h2, h3] using hk.symm
+        subst this
+        simp [isStanzaFor, isStanzaLocal, h1, h2, h3]
+      · simp [h1, h2, h3] at hk
+
+example : route [] (muxNS .zero "ignored") ⟨"jabber:component:accept", "iq"⟩ = .iqRouter := by decide
+
+set_option maxRecDepth 200000 in
+/-- **router table** (probe fact): the real multiplexer value made in every way the API allows
+(`New` with options, options applied after `New`, the zero value, a `ServeMux` embedded by
+value) × the namespace given to `New` × 20 element names reaches the stanza router the model
+says, or none -/
+theorem C14_probe_route : Generated.C14.routeTable = some routeTableModel := by decide
+
+set_option maxRecDepth 200000 in
+/-- the model's table is the specification: an element reaches a stanza router exactly when its
+local name is iq / message / presence and the multiplexer holds no namespace (zero value,
+`New("")`) or the element's -/
+theorem C14_route_table_spec :
+    ∀ r ∈ routeTableModel,
+      (r.out != .nop) =
+        ((r.name.loc == "iq" || r.name.loc == "message" || r.name.loc == "presence") &&
+         (r.ctor == .zero || r.ctor == .value || r.ns == "" || r.name.space == r.ns)) := by decide
+
+/-! ### own addresses that do not parse -/
+
+/-- **address error**: if an own, non-empty `to` / `from` of the start element is rejected by the
+address parser, the router returns before any lookup: no handler runs (`stanzaRouteP = none`),
+and for an IQ nothing is answered either (`.err`, not `.reply`) — whatever the table holds -/
+theorem C14_address_error (parse : ParseFn) (f : Framing) (tbl : Table) (k : Kind) (n : Name)
+    (pre post : List Attr) (a : Attr) (body : List Tok) (cons : List Nat) (c : Nat)
+    (ha : ownAddr a = true) (hp : parse a.value = none) :
+    stanzaRouteP parse f tbl k (.start n (pre ++ a :: post) :: body) cons = none ∧
+    iqRouteP parse tbl (.start n (pre ++ a :: post) :: body) c = .err := by
+  constructor
+  · simp [stanzaRouteP, startAttrs, stanzaHdrP_bad parse k pre post a ha hp]
+  · simp [iqRouteP, startAttrs, stanzaHdrP_bad parse .iq pre post a ha hp]
+
+example : ownAddr ⟨⟨"", "from"⟩, "@@"⟩ = true := by decide
+
+/-- **addresses in canonical form change nothing**: when the parser accepts every own address
+as it stands, the routers are those of the earlier theorems (`stanzaRoute`, `iqRouteA`) -/
+theorem C14_addresses_parse (parse : ParseFn) (f : Framing) (tbl : Table) (k : Kind) (n : Name)
+    (attrs : List Attr) (body : List Tok) (cons : List Nat) (c : Nat)
+    (hall : ∀ a ∈ attrs, ownAddr a = true → parse a.value = some a.value) :
+    stanzaRouteP parse f tbl k (.start n attrs :: body) cons
+      = some (stanzaRoute f tbl k (.start n attrs :: body) cons, stanzaHdr k attrs) ∧
+    iqRouteP parse tbl (.start n attrs :: body) c = iqRouteA tbl (.start n attrs :: body) c := by
+  constructor
+  · simp [stanzaRouteP, stanzaRoute, startAttrs, stanzaHdrP_ok parse k attrs hall]
+  · simp only [iqRouteP, iqRouteA, startAttrs, stanzaHdrP_ok parse .iq attrs hall]
+    cases iqRoute tbl (stanzaHdr .iq attrs).typ (.start n attrs :: body) c <;> rfl
+
+/-- foreign attributes never reach the parser: a qualified `to` / `from` is not an own address -/
+theorem C14_foreign_address_ignored (a : Attr) (h : a.name.space ≠ "") : ownAddr a = false := by
+  simp [ownAddr, h]
+
+set_option maxRecDepth 200000 in
+/-- **address table** (probe fact): the real multiplexer holding the bare wildcard of the stanza's
+type, sent a stanza of every kind × to × from over {absent, canonical, rewritten by `jid.Parse`,
+three rejected forms, empty attribute}: it returns an error without invoking the handler, or
+hands it a stanza value with the header, exactly as the attribute loop of the model run with
+`jid.Parse`'s own verdicts on those addresses (`parseTable`, regenerated as well) -/
+theorem C14_probe_addr :
+    Generated.C14.addrTable = Generated.C14.parseTable.map addrTableModel := by decide
+
+/-- **exactly the rejected own addresses end the router**: the attribute loop fails if and only if
+some own, non-empty `to` / `from` of the start element is rejected by the parser — nothing else
+(a foreign attribute, an empty address, a strange type or id) can make a stanza undeliverable -/
+theorem C14_address_error_iff (parse : ParseFn) (k : Kind) (attrs : List Attr) :
+    stanzaHdrP parse k attrs = none ↔ ∃ a ∈ attrs, ownAddr a = true ∧ parse a.value = none :=
+  foldl_hdrStepP_none_iff parse k attrs _
+
+/-! ### dispatches in flight on one multiplexer -/
+
+/-- **overlapping dispatches are independent**: several dispatches in flight on one multiplexer
+(sessions sharing it, a handler routing an inner stanza through it), their `bufReader.Token`
+calls interleaved by ANY schedule, each replaying from and appending to its own buffer
+(`Flight.own`: `forChildren` makes the buffer per call): the tokens dispatch `i` is handed are
+those it is handed when it runs alone — so `C14_bufreader_replay` / `C14_full_stanza` hold for
+each of them -/
+theorem C14_overlap_independent (f : Framing) (i : Nat) (sched : List Nat) (fl : Flight)
+    (h : fl.own) :
+    ((Flight.run f sched fl).filter (·.1 == i)).map (·.2)
+      = BufR.readSeq f (sched.count i) (fl.view i) :=
+  Flight.run_proj f i sched fl h
+
+/-- two dispatches, each with its own buffer holding its start element -/
+def flOwn : Flight :=
+  { heap := fun s => if s = 0 then [.start ⟨"jabber:client", "message"⟩ [⟨⟨"", "id"⟩, "outer"⟩]]
+                     else [.start ⟨"jabber:client", "message"⟩ [⟨⟨"", "id"⟩, "other"⟩]],
+    rds := fun i => ⟨i, 0, [.stop ⟨"jabber:client", "message"⟩]⟩ }
+
+example : flOwn.own := fun _ => rfl
+
+/-- the same two dispatches replaying from ONE buffer (a buffer kept in the multiplexer) -/
+def flShared : Flight := { flOwn with rds := fun _ => ⟨0, 0, [.stop ⟨"jabber:client", "message"⟩]⟩ }
+
+/-- **negation witness**: without `own` the statement is false — with a shared buffer the second
+dispatch is handed the first one's start element -/
+theorem C14_overlap_shared_fails :
+    ¬ (((Flight.run .sep [0, 1] flShared).filter (·.1 == 1)).map (·.2)
+        = BufR.readSeq .sep 1 ⟨flOwn.heap 1, 0, [.stop ⟨"jabber:client", "message"⟩]⟩) := by decide
+
+/-! ### stanzas without child elements -/
+
+/-- a stanza that is not empty but has no child *element* (white space or text only, what a
+pretty-printing peer sends) reaches no handler at all — neither a payload pattern nor the type
+wildcard: "empty stanzas" are exactly `[start, end]` (`C14_empty_to_wildcard`) -/
+theorem C14_text_only_no_handler (tbl : Table) (k : Kind) (typ : String) (stanza : List Tok)
+    (cons : List Nat) (hc : children stanza = []) (hl : stanza.length ≠ 2) :
+    forChildren tbl k typ stanza cons = [] := by
+  cases stanza with
+  | nil => rfl
+  | cons s body =>
+    have hl' : ((s :: body).length == 2) = false := by simpa using hl
+    simp only [forChildren, hc, dispatchChildren, hl']
+    rfl
+
+example : children [.start ⟨"jabber:client", "message"⟩ [], .chars "\n", .stop ⟨"jabber:client", "message"⟩] = [] := by decide
+
+
+/-! ### the top-level table -/
+
+/-- **most specific, top-level table**: `Handler` consults exact name, local name only, namespace
+only — it has no bare-wildcard step — so among the registered top-level patterns matching the
+element's name, the bare wildcard excepted (unless the name itself lacks a part, when the
+wildcard IS one of the three shapes), the one returned has minimal specificity rank -/
+theorem C14_top_most_specific (tbl : Table) (typ : String) (n : Name) (p : Pattern)
+    (h : lookup tbl .top typ n = some p) :
+    ∀ q ∈ tbl, q.kind = .top → q.typ = typ → matchesName q.name n = true →
+      (q.name ≠ ⟨"", ""⟩ ∨ n.space = "" ∨ n.loc = "") → rank p.name ≤ rank q.name := by
+  intro q hq hqk hqt hqm hw
+  unfold lookup at h
+  cases hf : firstHit (fun s => decide (⟨.top, typ, s⟩ ∈ tbl)) (shapes .top n) with
+  | none => simp [hf] at h
+  | some s =>
+    simp [hf] at h
+    subst h
+    obtain ⟨pre, post, hl, hpre⟩ := firstHit_before hf
+    have hqin : decide ((⟨.top, typ, q.name⟩ : Pattern) ∈ tbl) = true := by
+      have : (⟨.top, typ, q.name⟩ : Pattern) = q := by cases q; simp_all
+      simp [this, hq]
+    have hnot : q.name ∉ pre := fun hc => by
+      have := hpre _ hc
+      simp [hqin] at this
+    have hcases := matchesName_cases hqm
+    rcases n with ⟨sp, lo⟩
+    have hshape : shapes .top ⟨sp, lo⟩ = [⟨sp, lo⟩, ⟨"", lo⟩, ⟨sp, ""⟩] := rfl
+    rw [hshape] at hl
+    simp only at hcases hw
+    have hpos : (pre = [] ∧ s = ⟨sp, lo⟩) ∨ (pre = [⟨sp, lo⟩] ∧ s = ⟨"", lo⟩) ∨
+        (pre = [⟨sp, lo⟩, ⟨"", lo⟩] ∧ s = ⟨sp, ""⟩) := by
+      match pre, hl with
+      | [], hl => simp at hl; exact Or.inl ⟨rfl, hl.1.symm⟩
+      | [a], hl => simp at hl; exact Or.inr (Or.inl ⟨by simp [hl.1], hl.2.1.symm⟩)
+      | [a, b], hl => simp at hl; exact Or.inr (Or.inr ⟨by simp [hl.1, hl.2.1], hl.2.2.1.symm⟩)
+      | a :: b :: c :: d, hl => simp at hl
+    by_cases hs : sp = "" <;> by_cases hlo : lo = "" <;>
+      rcases hpos with ⟨hp, rfl⟩ | ⟨hp, rfl⟩ | ⟨hp, rfl⟩ <;>
+      rcases hcases with hc | hc | hc | hc <;>
+      simp_all [rank] <;> (try omega) <;> (try (split <;> omega))
+
+example : lookup [⟨.top, "", ⟨"urn:a", ""⟩⟩, ⟨.top, "", ⟨"", "x"⟩⟩] .top "" ⟨"urn:a", "x"⟩ = some ⟨.top, "", ⟨"", "x"⟩⟩ := by decide
+
+/-! ### a reader that fails in the middle of a stanza -/
+
+/-- **failing reader**: when the reader underneath fails (not `io.EOF`) after `cut` tokens of the
+stanza, the handlers invoked are those of the children whose start tag arrived — the same
+patterns, in the same order, as the first handlers of the complete dispatch — and each reads
+the first `c` tokens of what arrived, from the stanza's start element; nothing beyond the
+failure point is invented -/
+theorem C14_failing_reader (tbl : Table) (k : Kind) (typ : String) (stanza : List Tok)
+    (cons : List Nat) (cut : Nat) :
+    forChildrenCut tbl k typ stanza cons cut
+      = specCalls tbl k typ (stanza.take cut) (children (stanza.take cut)) cons ∧
+    (forChildrenCut tbl k typ stanza cons cut).map (·.pat)
+      <+: (specCalls tbl k typ stanza (children stanza) cons).map (·.pat) := by
+  refine ⟨forChildrenCut_spec tbl k typ stanza cons cut, ?_⟩
+  rw [forChildrenCut_spec, specCalls_pats, specCalls_pats]
+  exact (children_take_prefix stanza cut).map _
+
+example : (forChildrenCut [⟨.msg, "chat", ⟨"", ""⟩⟩] .msg "chat"
+    [.start ⟨"jabber:client", "message"⟩ [], .start ⟨"urn:a", "x"⟩ [], .stop ⟨"urn:a", "x"⟩,
+     .start ⟨"urn:a", "y"⟩ [], .stop ⟨"urn:a", "y"⟩, .stop ⟨"jabber:client", "message"⟩] [9, 9] 3).length = 1 := by decide
 
 end XmppModel.Props.C14
